@@ -46,8 +46,8 @@ func checkCleanSession(sim *core.Sim, prop string, a, b *stationRT, ra, rb *sess
 func checkDirection(sim *core.Sim, prop string, x, y *stationRT, rx, ry *sessResult, ev []mbox.Event) (transferred int) {
 	type agg struct {
 		inbOK, inbBegin, sentOK, sentRej, deferred int
-		inbSeq, sentSeq                          uint64
-		data                                     []byte
+		inbSeq, sentSeq                            uint64
+		data                                       []byte
 	}
 	byMID := map[string]*agg{}
 	get := func(mid string) *agg {
